@@ -258,18 +258,24 @@ def run(ctx):
                                                             "trace.ndjson": os.path.join(x["world"], "trace.ndjson"), "violated.json": {"labels": labs, "event": ev}})
         ctx.verdict.violation("%s in configuration %s at %s" % (labs, x["meta"]["rc"], json.dumps(short)[:500]), rp)
     tpl_cov = template_family(ctx)
+    import groupcheck
+    gbad, gcov = groupcheck.run_family("C10/groups", ctx.tier, ctx.seed + 1, groupcheck.LABELS_C10)
+    for k, (labs, ev) in enumerate(gbad[:10]):
+        rp = save_replay("C10", "groups%03d" % k, {"graph.json": ev, "violated.json": labs})
+        ctx.verdict.violation("%s: hook groups %s listed as %s by the %s gave %s %s %s" % (labs, json.dumps(ev["bodies"]), ev["start"], ev["where"], ev["obs"]["kind"], ev["obs"]["hooks"], ev["detail"]), rp)
     calls = sum(1 for e in lines if e["e"] == "Call")
     ends = sum(1 for e in lines if e["e"] == "End")
     aborted = sum(1 for e in lines if e["e"] == "End" and e["exit"] != 0)
     cov = {"states": r["distinct"], "transitions": r["generated"], "traces_validated_against_impl": len(results),
            "samples": [results[0]["meta"]["rc"], results[-1]["meta"]["rc"]], "configurations_in_model": len(confs),
            "configurations_run": len(results), "hook_calls_judged": calls, "hook_runs_judged": ends, "failing_hook_runs": aborted,
-           "env_patterns_per_hook_run": len(PATTERNS), "template_forms": tpl_cov, "exhaustive": False,
+           "env_patterns_per_hook_run": len(PATTERNS), "template_forms": tpl_cov, "hook_group_graphs": gcov, "exhaustive": False,
            "rule": "TLC enumerates hook lists (3 hooks x 7 type profiles (two of them mixing file and certificate event types) x allow_failure x exit code, 2 nested groups, 6 list shapes = 131712 configurations) and checks the "
                    "call semantics on each; a seeded sample (quick 150, thorough 2500) becomes real configurations with the recorder as command; two attempts each "
                    "(first issuance + renewal: create and edit brackets); 16 environment variables per run cover every presence pattern over process/global/"
                    "certificate/identifier levels; Template.tla enumerates template shapes (literals, variables, undefined variables, if/else on booleans and undefined, "
                    "comments, the rev_labels and default filters, a final newline; sequences of up to 2 (quick) or 3 (thorough) segments) and every one is passed to hooks of "
-                   "each event family as an argument"}
+                   "each event family as an argument; Groups.tla enumerates hook-group graphs (3 groups, 2 hooks; exhaustive for bodies of one name, sampled for two) and the "
+                   "expanded list the real loader builds is compared with the specification's Expand"}
     return {"coverage": cov, "assumptions": ["hook names of the account list and of the certificate list are disjoint by construction",
                                             "account hooks are not judged for the environment layering (the manual does not say whether global env applies to them)"]}
